@@ -232,3 +232,70 @@ _base_scn_or = scenarios
 
 def scenarios():
     return _base_scn_or() + [key_or(w) for w in ('key packet', 'second key packet', 'subkey', 'signature', 'identity')]
+
+
+def key_copy():
+    """PGPKey.__copy__: a new key holding copies of the key packet, of every identity, of every subkey and of every key signature that is
+    not an embedded one (those are re-derived from their binding signature when that is attached)"""
+    label = 'C14/PGPKey.__copy__'
+    UID, PKT = 'pgpy.pgp.PGPUID', 'pgpy.packet.packets.PubKeyV4'
+
+    def gen(repo):
+        r = scn.Run(repo, KEY, '__copy__', label)
+        ex, st = r.ex, r.st
+        me = E.VObj(KEY, 'key')
+        r.hook('pgpy.types.Armorable', '__copy__', scn.method_hook(lambda ex, st, o, a: [(st, E.VObj(KEY, 'copy'))]))
+        r.set('key', '_key', E.VObj(PKT, 'pkt'))
+        uids = [E.VObj(UID, 'uid0'), E.VObj(UID, 'attr0')]
+        subs = [E.VObj(KEY, 'sub0'), E.VObj(KEY, 'sub1')]
+        sigs = [E.VObj(SIG, 's0'), E.VObj(SIG, 's1'), E.VObj(SIG, 's2')]
+        emb = {x.ref: z3.Bool('embedded_' + x.ref) for x in sigs}
+        r.set('key', '_uids', ex.new_list(st, uids))
+        r.set('key', '_children', E.VDict([(E.VStr(s='id0'), subs[0]), (E.VStr(s='id1'), subs[1])]))
+        r.set('key', '_signatures', ex.new_list(st, sigs))
+        r.hook(SIG, 'embedded', lambda ex, st, o, a: [(st, E.VBool(emb[o.ref]))])
+
+        def cp(ex, st, o, a):
+            return [(st, E.VObj(o.cls, 'copy-of-' + str(o.ref)))]
+        for c in (UID, SIG, PKT):
+            r.hook(c, '__copy__', scn.method_hook(cp))
+
+        def sub_copy(ex, st, o, a):
+            return [(st, E.VObj(KEY, 'copy-of-' + str(o.ref)))]
+
+        def ior(ex, st, o, a):
+            st.ghost['attached'] = st.ghost.get('attached', ()) + ((o.ref, a[0]),)
+            return [(st, o)]
+        r.hook(KEY, '__or__', scn.method_hook(ior))
+        # copies of subkeys are PGPKey copies too: give them by contract (same function, one level down)
+        orig_getattr = ex.getattr
+
+        def getattr_(o, attr, st, ctx, n=None):
+            if attr == '__copy__' and isinstance(o, E.VObj) and o.cls == KEY and o.ref in ('sub0', 'sub1'):
+                return [(st, E.VBuiltin('hook', bound=(sub_copy, o)))]
+            return orig_getattr(o, attr, st, ctx, n)
+        ex.getattr = getattr_
+        for pi, (s, v) in enumerate(r.call(me, [])):
+            if isinstance(v, E.Raise):
+                r.oblige(s, 'safety(%s)/p%d' % (v.exc.split(':')[0], pi), z3.BoolVal(False), v.where)
+                continue
+            r.oblige(s, 'a-new-key/p%d' % pi, z3.BoolVal(isinstance(v, E.VObj) and v.ref == 'copy'))
+            kp = s.heap.get(('copy', '_key'))
+            r.oblige(s, 'holding-a-copy-of-the-key-packet/p%d' % pi, z3.BoolVal(isinstance(kp, E.VObj) and kp.ref == 'copy-of-pkt'))
+            att = [x.ref for t, x in s.ghost.get('attached', ()) if t == 'copy' and isinstance(x, E.VObj)]
+            fixed = ['copy-of-uid0', 'copy-of-attr0', 'copy-of-sub0', 'copy-of-sub1']
+            r.oblige(s, 'copies-of-every-identity-then-every-subkey,in-order/p%d' % pi, z3.BoolVal(att[:4] == fixed))
+            rest = att[4:]
+            r.oblige(s, 'then-copies-of-the-key-signatures-in-order/p%d' % pi, z3.BoolVal(rest == [x for x in ['copy-of-s0', 'copy-of-s1', 'copy-of-s2'] if x in rest]))
+            for x in sigs:
+                r.oblige(s, '%s-copied-iff-it-is-not-an-embedded-signature/p%d' % (x.ref, pi), z3.BoolVal('copy-of-' + x.ref in rest) == z3.Not(emb[x.ref]))
+            r.oblige(s, 'nothing-of-the-original-is-shared/p%d' % pi, z3.BoolVal(all(a.startswith('copy-of-') for a in att)))
+        return r.result()
+    return Scenario(label, KEY + '.__copy__', gen, props=('C14', 'C15'))
+
+
+_base_scn_kc = scenarios
+
+
+def scenarios():
+    return _base_scn_kc() + [key_copy()]
